@@ -124,20 +124,22 @@ Definition nth_guard (syms : list nat) (s n : nat) (k : unit -> dfa) : res dfa :
     else Ok (k tt)
   end.
 
+Definition nth_start_f (s n q a : nat) : option nat :=
+  if Nat.ltb (S q) n then Some (S q)
+  else if Nat.eqb (S q) n then (if Nat.eqb a s then Some (S n) else Some n)
+  else Some q.
+
 Definition nth_from_start_m (syms : list nat) (s n : nat) : res dfa :=
   nth_guard syms s n (fun _ =>
-    table_dfa syms (S (S n))
-              (fun q a => if Nat.ltb (S q) n then Some (S q)
-                          else if Nat.eqb (S q) n then (if Nat.eqb a s then Some (S n) else Some n)
-                          else Some q)
-              (fun q => Nat.eqb q (S n)) false).
+    table_dfa syms (S (S n)) (nth_start_f s n) (fun q => Nat.eqb q (S n)) false).
+
+(* shift register: the state is the last n symbols read as bits (1 = the target symbol) *)
+Definition nth_end_f (s n q a : nat) : option nat :=
+  Some ((2 * q + (if Nat.eqb a s then 1 else 0)) mod Nat.pow 2 n).
 
 Definition nth_from_end_m (syms : list nat) (s n : nat) : res dfa :=
   nth_guard syms s n (fun _ =>
-    let sc := Nat.pow 2 n in
-    table_dfa syms sc
-              (fun q a => Some ((2 * q + (if Nat.eqb a s then 1 else 0)) mod sc))
-              (fun q => Nat.leb (Nat.div sc 2) q) false).
+    table_dfa syms (Nat.pow 2 n) (nth_end_f s n) (fun q => Nat.leb (Nat.div (Nat.pow 2 n) 2) q) false).
 
 (* ---- minimality test for a result ---- *)
 Definition with_init (m : dfa) (q : nat) : dfa :=
